@@ -7,7 +7,7 @@
 //! (Measured: inline byte arrays in events cost ~15 000 symex steps per event read.)
 use std::fmt::Write as _;
 
-pub const MAX_CELLS: usize = 16;
+pub const MAX_CELLS: usize = 26;
 pub const MAX_ATTRS: usize = 4;
 /// Attributes one element can carry.
 pub const ELEM_ATTRS: usize = 4;
@@ -80,6 +80,10 @@ pub mod kind {
     /// `<rpc-error>` element) — keeps tapes short while the code under test still reads every
     /// event of the expansion
     pub const MACRO: u8 = 10;
+    /// nothing: the reader passes over this cell (and the `skip` cells after it) without an
+    /// event — lets a harness lay items out in fixed-width windows, so that cursor positions
+    /// stay constants for symex whatever the (symbolic) content of a window is
+    pub const NOP: u8 = 11;
 }
 
 /// Namespace codes.  `0` = no namespace in scope (`Unbound`), `255` = undeclared prefix
@@ -254,10 +258,20 @@ pub struct Cell {
     /// attributes of a Start/Empty cell: `attrs[attr0 .. attr0 + nattr]` of the tape
     pub attr0: u8,
     pub nattr: u8,
+    /// number of (unused) tape positions to pass over after this cell
+    pub skip: u8,
 }
 
 impl Cell {
-    pub const NONE: Self = Self { kind: kind::ERR, ns: 0, name: 0, text: 0, attr0: 0, nattr: 0 };
+    pub const NONE: Self = Self { kind: kind::ERR, ns: 0, name: 0, text: 0, attr0: 0, nattr: 0, skip: 0 };
+    /// a window of `width` positions holding nothing
+    pub const fn nop(width: u8) -> Self {
+        Self { kind: kind::NOP, skip: width - 1, ..Self::NONE }
+    }
+    pub const fn with_skip(mut self, skip: u8) -> Self {
+        self.skip = skip;
+        self
+    }
     pub const fn elem(kind: u8, ns: u8, name: u8) -> Self {
         Self { kind, ns, name, ..Self::NONE }
     }
@@ -381,18 +395,39 @@ pub fn fetch(slot: u8, cur: Cursor) -> Option<(Cell, Cursor)> {
         if cur.pos >= t.len as usize || cur.pos >= MAX_CELLS {
             return None;
         }
-        let c = t.cells[cur.pos];
+        let mut pos = cur.pos;
+        let mut c = t.cells[pos];
+        // up to MAX_HOPS consecutive NOP windows (unrolled, loop-free); more are a
+        // tape-construction error and read as a tokenizer error
+        macro_rules! hop {
+            () => {
+                if c.kind == kind::NOP {
+                    pos = pos + 1 + c.skip as usize;
+                    if pos >= t.len as usize || pos >= MAX_CELLS {
+                        return None;
+                    }
+                    c = t.cells[pos];
+                }
+            };
+        }
+        hop!();
+        hop!();
+        hop!();
+        if c.kind == kind::NOP {
+            return Some((Cell::NONE, Cursor { pos: pos + 1, sub: 0 }));
+        }
+        let cur = Cursor { pos, sub: cur.sub };
         if c.kind != kind::MACRO {
-            return Some((c, Cursor { pos: cur.pos + 1, sub: 0 }));
+            return Some((c, Cursor { pos: pos + 1 + c.skip as usize, sub: 0 }));
         }
         let m = &*std::ptr::addr_of!(MACRO_TABLE[c.name as usize % MACROS]);
         let n = m.len as usize;
         if cur.sub >= n || cur.sub >= MACRO_LEN {
             // empty macro: behaves like a tokenizer error cell
-            return Some((Cell::NONE, Cursor { pos: cur.pos + 1, sub: 0 }));
+            return Some((Cell::NONE, Cursor { pos: cur.pos + 1 + c.skip as usize, sub: 0 }));
         }
         let sc = m.cells[cur.sub];
-        let next = if cur.sub + 1 >= n { Cursor { pos: cur.pos + 1, sub: 0 } } else { Cursor { pos: cur.pos, sub: cur.sub + 1 } };
+        let next = if cur.sub + 1 >= n { Cursor { pos: cur.pos + 1 + c.skip as usize, sub: 0 } } else { Cursor { pos: cur.pos, sub: cur.sub + 1 } };
         Some((sc, next))
     }
 }
@@ -407,8 +442,13 @@ pub(crate) fn attr_at(slot: u8, i: usize) -> AttrCell {
 /// All cells of a tape with macros expanded (native side).
 pub fn expand(tape: &Tape) -> Vec<Cell> {
     let mut out = Vec::new();
-    for i in 0..(tape.len as usize).min(MAX_CELLS) {
+    let mut i = 0;
+    while i < (tape.len as usize).min(MAX_CELLS) {
         let c = tape.cells[i];
+        i += 1 + c.skip as usize;
+        if c.kind == kind::NOP {
+            continue;
+        }
         if c.kind == kind::MACRO {
             let m = macro_at(c.name);
             if m.len == 0 {
@@ -424,15 +464,29 @@ pub fn expand(tape: &Tape) -> Vec<Cell> {
     out
 }
 
-/// The input string that selects `slot`.
+/// The input string that selects `slot`: the slot is coded in the *length* of the input
+/// (`slot + 1` bytes).  The length is a plain integer in the fat pointer, so it stays a constant
+/// for CBMC's constant propagation even when the code under test copies the input (String,
+/// Arc<str>, Bytes); a slot read from the first *byte* of the input went through memory and
+/// made every cell of the tape look symbolic to symex (all match arms explored for concrete
+/// tapes).
 pub const fn input_for(slot: u8) -> &'static str {
     match slot {
         0 => "\u{0}",
-        1 => "\u{1}",
-        2 => "\u{2}",
-        3 => "\u{3}",
-        4 => "\u{4}",
-        _ => "\u{5}",
+        1 => "\u{1}\u{1}",
+        2 => "\u{2}\u{2}\u{2}",
+        3 => "\u{3}\u{3}\u{3}\u{3}",
+        4 => "\u{4}\u{4}\u{4}\u{4}\u{4}",
+        _ => "\u{5}\u{5}\u{5}\u{5}\u{5}\u{5}",
+    }
+}
+
+/// Inverse of [`input_for`].
+pub const fn slot_of_input(input: &[u8]) -> Option<u8> {
+    if input.is_empty() || input.len() > SLOTS {
+        None
+    } else {
+        Some((input.len() - 1) as u8)
     }
 }
 
